@@ -19,10 +19,10 @@ CHECKS = {
    text="Lean theorems Goag.Serve.parseBlock_ok_iff / parseBlock_values / parseBlock_error (for every leaf-parser table, every declared parameter list and every supplied value assignment): the model of the query/header block of new<Op>Params succeeds IFF no declared parameter is malformed in the property's own words (required and absent, scalar supplied more than once, a supplied value outside the lexical space of its type); on success every field is the typed value of the supplied text and an absent optional parameter is unset; a failure names a declared parameter with a fault that really applies to it. The model (closed-form strconv.ParseInt/ParseBool, measured table for float/time leaves) is tied to the generated parsers on every run: every type x location x required x ref-form x level combination with lexeme-class x cardinality requests, Parse() result vs model vs reference.",
    design_ref="DESIGN.md §4.4", note=SERVE_NOTE,
    technique="Lean 4 proof (iff by induction over the declaration list) + differential correspondence of the parser model with the generated Parse()"),
- "C05": dict(category="translation_validation",
-   text="The Lean model pathParse(pathProgOf template) (PathBuilder alternation of constant prefixes and variable extractors incl. base-path stripping) and the reference refPathParams (typed value of the segment at the parameter's own template position; empty/ill-typed => error naming it) run beside every dispatched request's Parse(); offsets of router and parser are derived independently in the code and in the model. General theorem not yet proved: per-program validation level.",
-   design_ref="DESIGN.md §4.5", note=SERVE_NOTE,
-   technique="executable Lean model + reference oracle, differential validation per generated program (theorem pending)"),
+ "C05": dict(category="proof",
+   text="Lean theorem Goag.Serve.runProg_progOf: for EVERY path template (any mix of literal and variable segments), every request path dispatched to it (same number of '/'-free segments, literal positions equal - what C03's router establishes), every pending constant and accumulator, running the alternating constant-prefix / variable-extractor program that NewOperation / NewHandler compile from the template (model progOf / runProg of the emitted new<Op>Params path block) gives each variable, in template order, the typed value of the segment AT ITS OWN POSITION; the first variable whose segment is empty ('required') or outside its type's lexical space ('lexical') is the one the error names; no other segment is consulted (refRun_ok_values). The model is tied on every run: Parse() of every dispatched request of the routing / parameter corpora vs pathParse(progOf template) vs the independent reference refPathParams.",
+   design_ref="DESIGN.md §0.2, §4.5", note=SERVE_NOTE + " Template text -> segment list (splitOn, brace detection) and base-path stripping are String code, tied by the correspondence only.",
+   technique="Lean 4 proof by induction over the template (list-of-characters model of the compiled path program) + differential correspondence with the generated Parse()"),
  "C11": dict(category="proof",
    text="Lean theorems auth_sound / auth_complete: for every requirement list in the implemented fragment (one supported scheme per alternative, one bearer slot), every installed-authenticator configuration and every request, the emitted authMiddlewareOr wrapper (model authOr over NewRouter's argument list, after NewSecurityRequirements) lets the handler run iff some alternative of the operation's own effective requirement is accepted, with the request that authenticator returned; denied => 401 and no handler; empty list => public. The full statement is proved FALSE (authExactFull_false) with the two recorded finding classes as witnesses (KF-C11-arity, KF-C11-unsupported), replayed against the real code on every run.",
    design_ref="DESIGN.md §4.11", note=SERVE_NOTE + " Partial: requirement alternatives with !=1 scheme or unsupported scheme kinds are recorded known findings.",
@@ -64,10 +64,10 @@ JSON_NOTE = ("Trusted: Lean kernel (+propext, Classical.choice, Quot.sound, audi
 RESP_NOTE = ("Trusted: Lean kernel (+propext, Classical.choice, Quot.sound, audited per run); the hand-written Lean models Goag.Resp (emitted response types, write<Op> method sets, written facts, client status switch) "
              "and Goag.Naming are modelled, not verified, and tied on every run by differential correspondence: go/types method sets of the real generated package, ResponseRecorder output of every constructor, "
              "round trips through the API's LocalClient; net/http, encoding/json as library hypotheses; the reflection driver /verif/harness/rt with seeded value generation.")
-CHECKS["C02"] = dict(category="translation_validation",
-   text="Per generated program: the implementer set of every <Op>Response interface is computed by go/types over ALL named types of the generated package (complete for that program, not sampled) and must equal both the Lean model's emitted-type/method-set prediction (Goag.Resp.implementers) and the documented set read from the spec (inline, shared, aliases); every constructible response value is written and status / Content-Type / header names / body kind / exactly one WriteHeader compared with Goag.Resp.expectedWritten; specs that share a response as default and numbered, or twice in one operation, must be rejected. No general Lean theorem yet: validation per program against an executable formal model.",
-   design_ref="DESIGN.md §4.2", note=RESP_NOTE,
-   technique="executable Lean model of emitted response types + complete go/types method-set comparison per generated program")
+CHECKS["C02"] = dict(category="proof",
+   text="Partial. Lean theorem Goag.Resp.implementers_eq_documented: for every document whose operation names are distinct, the set of emitted response types that carry an operation's unexported write<Op> method (hence satisfy its one-method response interface - inline responses of that operation, shared component responses through any alias) is exactly the set of responses the spec documents for it. The second sentence of the property (what Write emits) is validated, not proved. Tie, per generated program: the implementer set of every <Op>Response interface is computed by go/types over ALL named types of the generated package (complete for that program, not sampled) and must equal both the Lean model's emitted-type/method-set prediction (Goag.Resp.implementers) and the documented set read from the spec (inline, shared, aliases); every constructible response value is written and status / Content-Type / header names / body kind / exactly one WriteHeader compared with Goag.Resp.expectedWritten; specs that share a response as default and numbered, or twice in one operation, must be rejected. ",
+   design_ref="DESIGN.md §0.2, §4.2", note=RESP_NOTE,
+   technique="Lean 4 proof (implementers = documented on the emitted-type model) + complete go/types method-set comparison per generated program + per-constructor write validation")
 CHECKS["C06"] = dict(category="translation_validation",
    text="Lean theorems encode_members_wellformed / writeItems_inv: for every item list (any number of plain and embedded members, empty ones included) the modelled member writer emits a comma-separated member sequence without leading, trailing or doubled commas that parses back to exactly the flattened members (and old_writer_* prove the pre-fix writer did not). The round trip itself (decode (encode v) = v) is checked per generated program: values built by reflection from the schema, MarshalJSON output must be valid, duplicate-free JSON, decode back to an equal value, and agree with the model toJ / dumpVal. The general round-trip theorem is not proved, so the claim is translation validation with a proved syntactic core.",
    design_ref="DESIGN.md §4.6", note=JSON_NOTE,
@@ -85,7 +85,7 @@ CHECKS["C09"] = dict(category="translation_validation",
    design_ref="DESIGN.md §4.9", note=RESP_NOTE,
    technique="client->server round trips per generated program, compared by canonical dumps; Lean reference for the wire request")
 CHECKS["C10"] = dict(category="translation_validation",
-   text="Per generated program with --client: every constructible response value (status, seeded header values, JSON or raw body) returned by a handler is compared with the value Client.<Op> returns (same kind, code, headers, body), and 11 injected status codes per operation are compared with the Lean model Goag.Resp.clientArm (numbered arm, else default arm, else not-implemented error).",
+   text="Lean theorems documented_arm_exact / documented_reaches_arm / undocumented_to_default / undocumented_is_error: in the model of the emitted status switch a documented arm is chosen only for its own, documented status code; an undocumented code goes to the default arm when one is declared and to the not-implemented error otherwise - never to a wrong documented response (the property's second sentence, for every status list and code). The first sentence (value round trip) is validated, not proved. Per generated program with --client: every constructible response value (status, seeded header values, JSON or raw body) returned by a handler is compared with the value Client.<Op> returns (same kind, code, headers, body), and 11 injected status codes per operation are compared with the Lean model Goag.Resp.clientArm (numbered arm, else default arm, else not-implemented error).",
    design_ref="DESIGN.md §4.10", note=RESP_NOTE,
    technique="server->client round trips per generated program + executable Lean model of the client status switch")
 CHECKS["C18"] = dict(category="translation_validation",
@@ -105,6 +105,12 @@ CHECKS["C01"] = dict(category="translation_validation",
    design_ref="DESIGN.md §4.1",
    note="Trusted: the Go toolchain (go/parser, go/format, go build) as the judge; Lean kernel (+propext, Classical.choice, Quot.sound) for the naming theorems; the naming model is modelled and tied by differential correspondence. Recorded finding classes: KF-C01-nameCollision (distinct spec names deriving one Go identifier; accepted only on name-stress and map-fat specs), KF-C01-noApiHandler (--api-handler=false output refers to handler.go).",
    technique="per-program validation by the Go compiler over a flag x spec corpus + Lean 4 theorems on the identifier derivation tied by differential correspondence")
+
+CHECKS["C15"] = dict(category="fault_enumeration",
+   text="Mostly exploration, with a proved core. Lean theorems Goag.Alias.exhausted_is_cycle / accepted_resolves / walk_found_mono (every component map, any size): the repaired bounded alias walk reports 'reference cycle' only for chains that never end (pigeonhole over the visited names), and every map it accepts resolves each component to a definition within len+2 names, so the unbounded walks that follow terminate; the model is tied on every run by all 64 functional graphs on three names plus random graphs on up to five, for five component kinds. The rest of the property - no panic anywhere in the generator for any document the loader accepts, located errors, non-zero exit - quantifies over code that is not modelled and is explored by enumeration: for every JSON position of 51 base documents delete / null / type-swap (quick: 12 seeded positions per base; thorough: all) plus targeted faults, generator under recover, CLI exit status.",
+   design_ref="DESIGN.md §0.5, §4.15",
+   note="Trusted: kin-openapi as the definition of 'document the loader accepts' (its own crashes are counted, not judged); recover() in-process and the CLI exit status as observations; Lean kernel (+propext, Classical.choice, Quot.sound) for the alias theorems; Goag.Alias is modelled and tied by differential correspondence.",
+   technique="single-fault enumeration over corpus documents + Lean 4 termination / exactness proof of the alias-chain check tied by exhaustive small graphs")
 
 REASONS_PENDING = "check not built yet in this round of work (see DESIGN.md §12 order); nothing is claimed for it"
 
